@@ -6,6 +6,8 @@ R11a writer/reader agreement: for every exporter/importer pair the field sequenc
      stream constructors): the same members in the same order with corresponding loops,
 R11b one radix for all integer text: every mpz_set_str / mpz_get_str / stream operator uses the
      same base constant,
+R11e a card and its secret (a stack and its secret) have the same dimensions, so their importers
+     accept the same dimension ranges: the k-th numeric header field has the same upper limit in both,
 R11d the one integer text writer every exporter relies on (operator<< for mpz values) emits the
      complete text mpz_get_str produced -- the NUL-terminated string itself, or a write whose length
      is strlen of it -- from a buffer of at least sizeinbase + 2 octets (sign and terminator); a
@@ -284,6 +286,7 @@ STREAM_PAIRS = [
 def run(ctx):
     Fmt.prog = ctx.prog
     r11d(ctx)
+    r11e(ctx)
     prog = ctx.prog
     n = 0
     # (A) delimiter formats: operator<< vs import
@@ -460,3 +463,56 @@ def r11d(ctx):
     else:
         ctx.note('R11d', 'R11d:complete', 'how the integer text reaches the stream was not recognised; not evaluated', f)
     ctx.floor('R11d', sum(1 for r in ctx.results if r.rule == 'R11d' and r.status == 'ok'), 2)
+
+
+def dim_limits(ctx, f):
+    """upper limits of the numeric header fields an importer parses with strtoul, in parse order"""
+    a = ctx.analysis(f)
+    T = a.T
+    fs = a.accept_facts() or set()
+    calls = []
+    for nid, ev in sorted(a.all_events('call'), key=lambda x: (x[1][3], x[0])):
+        if ev[1].split('::')[-1] == 'strtoul':
+            calls.append(nid)
+    out = []
+    seen = []
+    for fa in fs:
+        n = T.node(fa)
+        if n[0] == 'rel' and n[1] in ('<=', '<') and T.is_int(n[3]) and T.op(n[2]) == 'callr' and T.node(n[2])[1].split('::')[-1] == 'strtoul':
+            seen.append((n[2], T.node(n[3])[1] - (1 if n[1] == '<' else 0)))
+    # order by first evaluation of the strtoul term
+    order = {}
+    for nid, ev in sorted(a.all_events('call'), key=lambda x: (x[1][3], x[0])):
+        if ev[1].split('::')[-1] == 'strtoul':
+            t = T.mk('callr', ev[1], *ev[2])
+            order.setdefault(t, len(order))
+    seen.sort(key=lambda x: order.get(x[0], 99))
+    return [b for t, b in seen], len(order)
+
+
+def r11e(ctx):
+    prog = ctx.prog
+    n = 0
+    pairs = []
+    for a_, b_ in (('TMCG_Card::import', 'TMCG_CardSecret::import'),):
+        pairs.append((a_, b_))
+    for q in sorted(prog.by_q):
+        if q.startswith('TMCG_Stack<') and q.endswith('::import'):
+            inner = q[len('TMCG_Stack<'):-len('>::import')]
+            cand = 'TMCG_StackSecret<%s>::import' % inner.replace('Card', 'CardSecret')
+            if cand in prog.by_q:
+                pairs.append((q, cand))
+    for qa, qb in pairs:
+        fa, fb = prog.fn(qa, 0), prog.fn(qb, 0)
+        la, na = dim_limits(ctx, fa)
+        lb, nb = dim_limits(ctx, fb)
+        n += 1
+        key = 'R11e:%s<->%s' % (qa.replace('::import', ''), qb.replace('::import', ''))
+        if not la or not lb:
+            ctx.bad('R11e', key, 'a numeric header field is parsed without an upper limit (limits found: %s / %s)' % (la, lb), fb, nec=False)
+        elif la == lb:
+            ctx.ok('R11e', key, 'both importers accept the same dimension ranges (upper limits %s)' % la, fb)
+        else:
+            ctx.bad('R11e', key, 'the importers of an object and of its secret accept different dimension ranges: header limits %s versus %s -- '
+                    'objects of some admissible size export but do not import' % (la, lb), fb)
+    ctx.floor('R11e', n, 3)
